@@ -45,16 +45,19 @@ def r051(ctx):
     ctx.require(pops_, "anchor vanished: hull pop")
     sel = pops_[0].data["fterm"].args[0]
     b = {"r1": mk("sub", sel, const(-1)), "r0": mk("sub", sel, const(-2)), "r2": r2}
-    want = A.spec("(r1.y - r0.y) * (r2.x - r0.x) <= (r2.y - r0.y) * (r1.x - r0.x)", b)
-    okc = A.C.canon(e.data["cond"]) is A.C.canon(want)
-    strict = A.C.canon(e.data["cond"]) is A.C.canon(A.spec("(r1.y - r0.y) * (r2.x - r0.x) < (r2.y - r0.y) * (r1.x - r0.x)", b))
-    ctx.ob("R05.1", fq, e.node, okc, "r1 is dropped iff it lies on or below the chord r0-r2 (non-strict cross-product test)"
-           if okc else ("the drop test is strict: collinear / duplicate points stay on the hull and the interpolation divides by "
-                        "zero or loses optimality" if strict else f"drop test is {A.show(e.data['cond'], 200)}"),
-           construct="hull drop test")
+    want = A.C.canon(A.spec("(r1.y - r0.y) * (r2.x - r0.x) <= (r2.y - r0.y) * (r1.x - r0.x)", b))
+    strict_ = A.C.canon(A.spec("(r1.y - r0.y) * (r2.x - r0.x) < (r2.y - r0.y) * (r1.x - r0.x)", b))
     pops = [x for x in r.events if x.kind == "call" and x.data["fterm"].op == "attr" and x.data["fterm"].args[1] == "pop" and len(x.loops) == 2]
     brk = [x for x in r.events if x.kind == "break" and len(x.loops) == 2]
-    ok = len(pops) == 1 and len(brk) == 1 and any(l is e.data["cond"] for l in pops[0].pc) and any(l.op == "not" and l.args[0] is e.data["cond"] for l in brk[0].pc)
+    pop_cond = A.C.canon(pops[0].pc[-1]) if len(pops) == 1 and pops[0].pc else None
+    brk_cond = A.C.canon(brk[0].pc[-1]) if len(brk) == 1 and brk[0].pc else None
+    okc = pop_cond is want
+    strict = pop_cond is strict_
+    ctx.ob("R05.1", fq, e.node, okc, "r1 is dropped iff it lies on or below the chord r0-r2 (non-strict cross-product test)"
+           if okc else ("the drop test is strict: collinear / duplicate points stay on the hull and the interpolation divides by "
+                        "zero or loses optimality" if strict else f"r1 is dropped under {A.show(pops[0].pc[-1], 200) if pops and pops[0].pc else '?'}"),
+           construct="hull drop test")
+    ok = len(pops) == 1 and len(brk) == 1 and brk_cond is A.C._not(want)
     ctx.ob("R05.1", fq, pops[0].node if pops else None, ok, "a true test pops r1, a false test ends the inner loop",
            construct="hull pop/break")
     wc = inner.data["iter"]
